@@ -112,7 +112,9 @@ namespace ST
         size_t size() const noexcept { return m_size; }
 
     private:
-        char m_buffer[64];
+        // Large enough for "%f" of -DBL_MAX:  sign, 309 integer digits,
+        // decimal point, 6 fractional digits and the nul terminator
+        char m_buffer[std::numeric_limits<double>::max_exponent10 + 10];
         size_t m_size;
     };
 }
